@@ -51,6 +51,14 @@ class C13(MgrBase):
                 a = rng.randrange(1, npeers + 1)
                 ops.append(rng.choice(["unchoke %d" % a, "bf %d %s" % (a, rand_bits(rng, n)), "nint %d" % a]))
             cases.append(self.mk("raw", n, 4, 4 * n, ops, "state"))
+        # picks made straight from a Have announcement, on the same kind of states
+        for _ in range(k // 3):
+            n = rng.choice([2, 5, 9, 10, 11, 12, 15, 25])
+            npeers = rng.choice([2, 3, 5])
+            ops = random_state_ops(rng, n, npeers)
+            for _ in range(6):
+                ops.append("have %d %d" % (rng.randrange(1, npeers + 1), rng.randrange(n)))
+            cases.append(self.mk("raw", n, 4, 4 * n, ops, "have-pick"))
         for _ in range(k // 8):
             n = rng.choice([3, 11, 12])
             cases.append(self.mk("prod", n, 4, 4 * n, protocol_scenario(rng, 2, n, 14), "history"))
